@@ -202,11 +202,79 @@ pub fn batch<S: Sch>(rec: &mut Rec, max_size: usize) {
     });
 }
 
+
+/// Batches with SIX point labels verified inside private rayon pools of 2, 3 and 4 threads (the library's own
+/// `current_num_threads()` then reports that size): the honest batch accepted, every single claim falsified in
+/// turn not accepted.  The other slices run single-threaded; a verifier that splits its work by thread count is
+/// only visible here.
+pub fn batch_pools<S: Sch>(rec: &mut Rec)
+where
+    Keys<S>: Sync,
+    LCm<S>: Sync,
+    BPf<S>: Sync,
+{
+    let cfg = crate::scope::slice_b::<S>();
+    let keys = match build_keys::<S>(&cfg, rec.seed) {
+        Ok(k) => k,
+        Err(_) => return,
+    };
+    let polys: Vec<LP<S>> = crate::checks::c01::slice_b_polys::<S>(&cfg, rec.seed).into_iter().take(2).collect();
+    let c = match commit_set::<S>(&keys, polys, rec.seed, 0) {
+        Ok(c) => c,
+        Err(_) => return,
+    };
+    let pts = S::points(&cfg, rec.seed);
+    let mut qs = QuerySet::<S::Pt>::new();
+    for j in 0..6usize {
+        let z = pts[j % pts.len()].1.clone();
+        qs.insert(("p0".to_string(), (format!("l{}", j), z.clone())));
+        if j % 3 == 0 {
+            qs.insert(("p1".to_string(), (format!("l{}", j), z)));
+        }
+    }
+    let b = match open_batch::<S>(&keys, &c, &[0, 1], &qs, 0, rec.seed, 0) {
+        Ok(b) => b,
+        Err(_) => return,
+    };
+    for threads in [2usize, 3, 4] {
+        let id = format!("{}/pools/threads={}/six-labels", S::NAME, threads);
+        if !rec.take(&id) {
+            continue;
+        }
+        rec.dim("scheme", S::NAME);
+        let comms: Vec<&LCm<S>> = c.comms.iter().collect();
+        let seed = rec.seed;
+        let ks: Vec<_> = b.evals.keys().cloned().collect();
+        let (kr, br, cr) = (&keys, &b, &comms);
+        let (honest, faults): (Dec, Vec<Dec>) = with_threads(threads, || {
+            let honest = check_batch::<S>(kr, cr, &br.qs, &br.evals, &br.proof, 0, seed, 0);
+            let mut out = Vec::new();
+            for k in ks.iter() {
+                let mut ev = br.evals.clone();
+                *ev.get_mut(k).unwrap() += S::F::one();
+                out.push(check_batch::<S>(kr, cr, &br.qs, &ev, &br.proof, 0, seed, 0));
+            }
+            (honest, out)
+        });
+        rec.op(1 + faults.len() as u64);
+        if !honest.accepted() {
+            rec.class("source-not-accepted");
+            rec.violation(&format!("C02/{}/batch_check/in-pool/honest-rejected", S::NAME), &id, format!("honest six-label batch not accepted inside a pool of {} threads: {}", threads, honest.short()));
+            continue;
+        }
+        rec.class("source-accepted");
+        for (pos, d) in faults.iter().enumerate() {
+            expect_reject(rec, d, S::NAME, "batch_check/in-pool", "value+delta", &id, &format!("eval[{}:{}@{:?}]+1 inside a pool of {} threads -> {}", pos, ks[pos].0, pos, threads, d.short()));
+        }
+    }
+}
+
 pub fn run(rec: &mut Rec) {
     let (w, ms) = if rec.thorough() { (Width::Wide, 4) } else { (Width::Medium, 2) };
     crate::for_each_scheme!(S, {
         single::<S>(rec, w);
         batch::<S>(rec, ms);
+        batch_pools::<S>(rec);
     });
     crate::special::c02_special(rec);
 }
